@@ -4,6 +4,8 @@
 From Coq Require Import List ZArith NArith String Bool.
 From IprV Require Import GenTypes RBModel RBProofs Comparators Unify Arena ArenaProofs Lexicon LexiconProofs LexTables GenCheck LexInst.
 From IprV.gen Require Import GenCmp GenWords.
+From IprV Require Derived CompareSource.
+From IprV.gen Require GenDerived.
 Import ListNotations.
 
 Lemma known_sorted : sorted_strict known_words.
@@ -79,6 +81,23 @@ Example c04_nonvacuous :
      Some (Dyn 2); Some (SymConst 3); Some CLink].
 Proof. vm_compute. reflexivity. Qed.
 
+(* the leaf comparisons as they stand in the source (CompareSource.v over the regenerated GenDerived / GenCmp) *)
+Theorem c04_string_order_is_by_characters : forall (I : Derived.interp) fuel a b,
+  CompareSource.cmp I (20 + fuel) "ipr::String" a b =
+  Derived.prim I "ext::compare" (CompareSource.acc I (20 + fuel) "String::characters" a) [CompareSource.acc I (20 + fuel) "String::characters" b].
+Proof. exact CompareSource.string_order_is_by_characters. Qed.
+
+Theorem c04_logogram_order_is_by_spelling : forall (I : Derived.interp) fuel a b,
+  CompareSource.cmp I (20 + fuel) "ipr::Logogram" a b =
+  CompareSource.cmp I (20 + fuel) "ipr::String" (CompareSource.acc I (20 + fuel) "Logogram::what" a) (CompareSource.acc I (20 + fuel) "Logogram::what" b).
+Proof. exact CompareSource.logogram_order_is_by_spelling. Qed.
+
+Theorem c04_value_operands_resolve_to_value_overloads : CompareSource.calls_ok gen_compare_calls = true.
+Proof. exact CompareSource.value_operands_resolve_to_value_overloads. Qed.
+
+Print Assumptions c04_string_order_is_by_characters.
+Print Assumptions c04_logogram_order_is_by_spelling.
+Print Assumptions c04_value_operands_resolve_to_value_overloads.
 Print Assumptions c04_names_and_atoms_unified.
 Print Assumptions c04_table_invariant.
 Print Assumptions c04_string_unique.
